@@ -499,7 +499,8 @@ def sets_child(arg):
         if inter:
             for c in pg.covouts.values():
                 if pr.covout_interactions(c):
-                    c.sigma = rnd.choice([0.05, 0.01, 0.0, None]) if mode != "all" else 0.05
+                    # zero mode: an uncertainty of exactly 0 is ENTERED (not blank), so Covout.sample runs its perturbation code with sigma 0
+                    c.sigma = 0.0 if mode == "zero" else (rnd.choice([0.05, 0.01, 0.0, None]) if mode != "all" else 0.05)
         case["n_int"] = n_int
         case["n_unc"] = n_unc
         S = rnd.randrange(2**31)
@@ -588,8 +589,8 @@ def cmp_series_list(model, new, src, zmax):
 
 def run_sets(ctx):
     r = ctx.rng
-    variants_quick = [("none", False, True), ("mixed", False, True), ("all", False, False), ("all", True, True), ("mixed", True, False)]
-    variants = variants_quick if ctx.quick else variants_quick + [("mixed", False, False), ("one", False, True), ("zero", False, False), ("zero", True, True), ("all", True, False), ("mixed", True, True), ("one", True, False)]
+    variants_quick = [("none", False, True), ("mixed", False, True), ("all", False, False), ("all", True, True), ("mixed", True, False), ("zero", True, True)]
+    variants = variants_quick if ctx.quick else variants_quick + [("mixed", False, False), ("one", False, True), ("zero", False, False), ("zero", True, False), ("all", True, False), ("mixed", True, True), ("one", True, False)]
     reps_n = ctx.n(1, 4)
     args = [(name, r.randrange(2**31), variants) for name in LIB_ALL for _ in range(reps_n)]
     eval_sets(ctx, run_many(sets_child, args, k=ctx.n(12, 14)))
